@@ -31,6 +31,22 @@ type lc struct {
 
 func (x *lc) label() string { return x.e.vals[x.vi].label }
 
+// at: the leaf context focused on catalogue value vi of the type (a scenario is one type; leaves loop over its
+// values, so that a defect of the type is one violating leaf and not one per value).
+func (x *lc) at(vi int) *lc {
+	y := *x
+	y.vi, y.o = vi, original(x.seed, x.e, vi)
+	return &y
+}
+
+func (x *lc) values() []*lc {
+	r := make([]*lc, len(x.e.vals))
+	for vi := range x.e.vals {
+		r[vi] = x.at(vi)
+	}
+	return r
+}
+
 // Signature scheme: C08/<family>/<subject>/<kind>. <subject> is the function that panicked, else
 // <DeclaringType>.<method> of the code under test (a promoted method is named after the embedded type that
 // declares it), else - for a mis-decoded field - the component type that owns the field.
@@ -295,7 +311,7 @@ func (x *lc) baseline(d decoder) bool {
 	if x.roundtrip(d, false) {
 		return true
 	}
-	x.c.Skip("plain round trip already fails (reported by the receiver family, fresh receiver)")
+	x.c.Cover("not-judged", "plain round trip already fails (reported by the receiver family, fresh receiver)")
 	return false
 }
 
